@@ -2,5 +2,6 @@
 EXTENDS Storage
 J(c, o) == [cmd |-> c, o |-> o]
 JobStore  == <<J("store", "a"), J("store", "b"), J("store", "a")>>
+JobAdopt  == <<J("adopt", "a"), J("store", "b"), J("adopt", "a"), J("adopt", "c")>>
 JobMixed  == <<J("store", "a"), J("repair", "c"), J("drop", "d"), J("store", "b")>>
 =============================================================================
